@@ -83,7 +83,7 @@ def check_valid_graph(k, bits, as_bool):
     import numpy
     dsw = import_dsw()
     n = 4 ** k
-    mask = numpy.array(bits, dtype=bool if as_bool else int)
+    mask = gens.pooled(numpy.array(bits, dtype=bool if as_bool else int), "mask")
     before = mask.tobytes()
     got = lib_call(dsw.connect_valid_graph, observed_length=k, vertices=mask)
     if mask.tobytes() != before:
